@@ -1,10 +1,13 @@
 #!/bin/bash
-# usage: tools/eval_seed.sh <patch.diff> <check ids...>  -- applies the patch to /repo, runs the checks, reverts
+# usage: tools/eval_seed.sh <patch.diff> <check ids...>  -- applies the patch to /repo, runs the checks, reverts.
+# The evidence files of the checks are saved and restored: committed evidence always describes the unchanged tree.
 P=$1; shift
 cd /repo && git status --short | grep -q . && { echo "/repo not clean"; exit 3; }
 git -C /repo apply $P || exit 3
 for c in "$@"; do
+  cp /verif/evidence/$c.json /tmp/evidence_keep_$c.json 2>/dev/null
   OUT=$(cd /verif && timeout 1500 ./check $c --tier ${TIER:-quick} 2>&1); E=$?
+  cp /tmp/evidence_keep_$c.json /verif/evidence/$c.json 2>/dev/null; rm -f /tmp/evidence_keep_$c.json
   echo "check=$c exit=$E :: $(echo "$OUT" | grep -m2 "VIOLATION\|INCONCLUSIVE\|^OK" | cut -c1-260 | tr '\n' '|')"
 done
 git -C /repo checkout -- .
